@@ -21,6 +21,7 @@ func (tr *trans) specFuncRef(sf *SpecFunc) *fnRef {
 	if fr, ok := tr.specRefs["sf."+sf.Name]; ok {
 		return fr
 	}
+	defer tr.needAxioms(sf.PkgPath)
 	env := &Env{tr: tr, vc: tr.vc, pkgPath: sf.PkgPath, st: State{}, old: State{}, vars: map[string]SV{}, lets: map[string]Expr{}, errs: &tr.errs}
 	if tr.fc != nil {
 		env.with = tr.fc.With
@@ -462,6 +463,9 @@ func (tr *trans) call(v ssa.Value, c *ssa.CallCommon, st State) {
 	}
 	if callee := c.StaticCallee(); callee != nil {
 		key := funcKey(callee)
+		if callee.Pkg != nil && callee.Pkg.Pkg.Path() == "sync/atomic" && tr.atomicCall(v, callee.Name(), c, st, pos) {
+			return
+		}
 		if mc, ok := c.Value.(*ssa.MakeClosure); ok {
 			_ = mc
 		}
@@ -559,6 +563,7 @@ func (tr *trans) applyContract(fc *FuncContract, sig *types.Signature, key strin
 	reach := tr.reach[tr.curB.Index]
 	tr.ncall++
 	cid := tr.ncall
+	tr.needAxioms(fc.PkgPath)
 	env := &Env{tr: tr, vc: tr.vc, pkgPath: fc.PkgPath, st: st, old: st, vars: map[string]SV{}, with: fc.With, lets: map[string]Expr{}, errs: &tr.errs}
 	if recv != nil && sig.Recv() != nil {
 		rt := recvT
@@ -928,3 +933,51 @@ func (tr *trans) goStmt(x *ssa.Go, st State) {
 }
 
 func (tr *trans) lockObligations(st State, k int, pos token.Pos) {}
+
+// atomicCall models sync/atomic functions as sequential loads/stores (assumption: linearisable, no interleaving).
+func (tr *trans) atomicCall(v ssa.Value, name string, c *ssa.CallCommon, st State, pos token.Pos) bool {
+	if len(c.Args) == 0 {
+		return false
+	}
+	if _, ok := c.Args[0].Type().Underlying().(*types.Pointer); !ok {
+		return false
+	}
+	l := tr.locOf(c.Args[0])
+	if rr := l.rootRef(); rr != "" {
+		tr.panicCheck("nil-deref:"+tr.srcText(pos)+":atomic", not(eq(rr, "0")), pos)
+	}
+	tr.note("sync/atomic operations are modelled as sequential reads/writes (no interleaving)")
+	wrap := func(t Term) Term {
+		if lo, hi, ok := intRange(l.ty); ok {
+			if isUnsigned(l.ty) {
+				return app("mod", t, app("+", hi, "1"))
+			}
+			_ = lo
+		}
+		return t
+	}
+	switch {
+	case strings.HasPrefix(name, "Load"):
+		tr.setVal(v, tr.load(st, l))
+		if inv := tr.typeInv(tr.vals[v], l.ty, st, 0); inv != "true" {
+			tr.vc.assume(inv)
+		}
+	case strings.HasPrefix(name, "Store"):
+		tr.store(st, l, tr.val(c.Args[1]))
+	case strings.HasPrefix(name, "Add"):
+		nv := wrap(app("+", tr.load(st, l), tr.val(c.Args[1])))
+		tr.setVal(v, nv)
+		tr.store(st, l, tr.vals[v])
+	case strings.HasPrefix(name, "CompareAndSwap"):
+		cur := tr.load(st, l)
+		okT := eq(cur, tr.val(c.Args[1]))
+		tr.setVal(v, okT)
+		tr.store(st, l, ite(tr.vals[v], tr.val(c.Args[2]), cur))
+	case strings.HasPrefix(name, "Swap"):
+		tr.setVal(v, tr.load(st, l))
+		tr.store(st, l, tr.val(c.Args[1]))
+	default:
+		return false
+	}
+	return true
+}
